@@ -52,7 +52,8 @@ def main():
     seed = int(os.environ.get("VERIF_SEED", "20260926"))
     t0 = time.time()
     mod = importlib.import_module(prop.lower())
-    st = build.prepare(prop, drivers=getattr(mod, "DRIVERS", ()), targets=getattr(mod, "TARGETS", None))
+    st = build.prepare(prop, drivers=getattr(mod, "DRIVERS", ()), targets=getattr(mod, "TARGETS", None),
+                       model_targets=getattr(mod, "MODEL_TARGETS", None))
     ctx = Ctx(prop, tier, seed, st)
     res = ctx.res
     broken = []   # proof-side breakage (theorem / translator / extraction)
